@@ -254,6 +254,9 @@ UnstructureClauses(s, l) ==
        ELSE IF l = 2 /\ prev.e = "Construct"
             THEN (IF JEq(ev.w, Wire(prev.o)) THEN {}
                   ELSE IF KeysEq(ev.w, Wire(prev.o)) THEN {"U_exact"} ELSE {"U_exact", "U_keys"})
+       ELSE IF l = 4 /\ s.sk = "mutate"       \* Construct(o) . Unstructure . Assign(-> o2) . Unstructure: the object's CURRENT state is written
+            THEN (IF JEq(ev.w, Wire(s.ev[3].o)) THEN {}
+                  ELSE IF KeysEq(ev.w, Wire(s.ev[3].o)) THEN {"U_exact"} ELSE {"U_exact", "U_keys"})
        ELSE IF l = 4
             THEN (IF JEq(ev.w, s.ev[2].w) THEN {} ELSE IF s.sk = "unk" THEN {"X_same"} ELSE {"U_idem"})
        ELSE {}
@@ -277,7 +280,11 @@ ValidateClauses(s, l) ==
        \cup (IF ev.pyk \in {"int", "intsub"} /\ ev.res \in {"true", "valueerror"} /\ (ev.res = "true") # InRange(kind, ev.n)
              THEN {"V_range"} ELSE {})
 
+\* an attribute of a live object was assigned; ev.o is the abstract object afterwards (a valid one)
+AssignClauses(s, l) == IF s.ev[l].ok THEN {} ELSE {"K_ok"}
+
 Clauses(s, l) == CASE s.ev[l].e = "Structure" -> StructureClauses(s, l)
+                   [] s.ev[l].e = "Assign" -> AssignClauses(s, l)
                    [] s.ev[l].e = "Validate" -> ValidateClauses(s, l)
                    [] s.ev[l].e = "Unstructure" -> UnstructureClauses(s, l)
                    [] s.ev[l].e = "Construct" -> ConstructClauses(s, l)
